@@ -109,7 +109,14 @@ class PendingComp(PendingExprGeneric[_CompNode]):
                 )
             self.get_comp_target_names(comp.target)
 
+    def _iter_fields(self):
+        # the iterable of the first clause is evaluated in the enclosing scope:
+        # convert it before the targets of this comprehension are registered
+        # (`[x for x in x]` reads the `x` of the enclosing scope)
+        first_iter = yield self.node.generators[0].iter
         self.nsp.comp_stack.append(self)
+        yield from super()._iter_fields()
+        self.converted_dict["generators"][0].iter = first_iter
 
     def get_result(self) -> expr:
         assert self.nsp.comp_stack[-1] is self
